@@ -1,7 +1,7 @@
 #!/bin/bash
 # Builds the harness (and warms the Go build cache for the plain and the -race worker) offline.
 set -e
-cd /verif
+cd "$(dirname "$(readlink -f "$0")")"; export VERIF_ROOT="$PWD"
 export GOFLAGS=-mod=mod GOPROXY=off GOSUMDB=off GOTOOLCHAIN=local
 mkdir -p bin work evidence replays
 (cd harness && go build -tags verif -o ../bin/vrun . && go build -race -tags verif -o ../bin/vrun-race .)
